@@ -268,13 +268,15 @@ def field_props(f, base_props_kind):
     nc = len(f["ranges"]) > 1
     if custom:
         props.add("C08")
+        if base_props_kind == "C02":
+            props.add("C02")
     else:
         if f["array"]:
             props.add("C03")
         if nc:
             props.add("C04")
-        if not f["array"] and not nc:
-            props.add(base_props_kind)  # C01 for getters, C02 for writers
+        if base_props_kind == "C02" or (not f["array"] and not nc):
+            props.add(base_props_kind)  # C01: contiguous scalar getters; C02: every writer
         if k == "int":
             props.add("C05")
     return props
@@ -696,38 +698,73 @@ def check_enum(ctx, cr, e):
     seen = {}
     otherwise = None
     bad = None
+    und = None
     for o in run["outs"]:
         conds = o["conds"]
         if len(conds) != 1 or "sw" not in conds[0]:
             bad = "outcome with %d branch conditions" % len(conds)
             break
         sw = int_of(conds[0]["sw"])
-        d = diff_bits(sw, argbits)
-        if d:
-            bad = "the value matched on is not the argument: " + d
+        # the value matched on, as a function of the argument: every argument bit must take part, otherwise
+        # several raw values share one arm
+        used = {}
+        weird = False
+        for i, b in enumerate(sw):
+            if b in (Z, O):
+                continue
+            if b[0] == "s" and b[1] == argsym and b[2] < N:
+                used.setdefault(b[2], []).append((i, b[3]))
+            else:
+                weird = True
+        if weird:
+            und = "the value matched on is not a rearrangement of the argument's bits"
             break
         if "eq" in conds[0]:
             x = int(conds[0]["eq"])
+            missing_bits = [j for j in range(N) if j not in used]
+            # solve sw(r) == x for r
+            r = 0
+            feasible = True
+            for j, occ in used.items():
+                vals = {((x >> i) & 1) ^ (1 if neg else 0) for (i, neg) in occ}
+                if len(vals) != 1:
+                    feasible = False
+                    break
+                r |= vals.pop() << j
+            for i, b in enumerate(sw):
+                if b in (Z, O) and ((x >> i) & 1) != (1 if b == O else 0):
+                    feasible = False
+            if x >> len(sw):
+                feasible = False
+            if not feasible:
+                continue
             if o["k"] != "ret":
-                bad = "raw value %d ends in %s" % (x, o["k"])
+                bad = "raw value %d ends in %s" % (r, o["k"])
+                break
+            if missing_bits:
+                other = r ^ (1 << missing_bits[0])
+                bad = "raw values %d and %d are both handled by the arm for %d: argument bit %d is ignored by the match" % (r, other, x, missing_bits[0])
                 break
             v = o["v"]
             if not exhaustive:
                 if v.get("v") != 0 or len(v.get("f", [])) != 1:
-                    bad = "raw value %d does not return Ok(..): %s" % (x, json.dumps(v)[:80])
+                    bad = "raw value %d does not return Ok(..): %s" % (r, json.dumps(v)[:80])
                     break
                 v = v["f"][0]
             vi = v.get("v")
             if vi not in by_idx:
-                bad = "raw value %d returns unknown variant %s" % (x, vi)
+                bad = "raw value %d returns unknown variant %s" % (r, vi)
                 break
             nm = by_idx[vi]["name"]
-            if model_by_name.get(nm) != x:
-                bad = "raw value %d returns %s whose discriminant is %s" % (x, nm, model_by_name.get(nm))
+            if model_by_name.get(nm) != r:
+                bad = "raw value %d returns %s whose discriminant is %s" % (r, nm, model_by_name.get(nm))
                 break
-            seen[x] = nm
+            seen[r] = nm
         else:
             otherwise = o
+    if und and not bad:
+        ctx.ob(props, okey0, None, und)
+        return
     if bad:
         ctx.ob(props, okey0, False, bad)
         return
@@ -1518,6 +1555,10 @@ def analyse_positive(ctx, want_props):
             if d["kind"] not in ("struct", "enum"):
                 continue
             mine = d.get("quarantined") or [x for x in diags if any(a.get("line") and d["line0"] <= a["line"] <= d["line1"] for a in x["at"])]
+            qnames = {q["name"] for q in decls if q.get("skip") and q is not d}
+            if mine and all(x.get("round", 1) >= 2 and any(("`%s`" % n) in x.get("message", "") for n in qnames) for x in mine):
+                # it only fails because a declaration it refers to was quarantined: that one carries the verdict
+                continue
             regime = [x for x in mine if regime_error(x)]
             p = {"C18"} if (mine and len(regime) == len(mine)) else {"C09" if d["kind"] == "struct" else "C10"}
             allp = {"C09" if d["kind"] == "struct" else "C10", "C18"}
